@@ -1521,9 +1521,9 @@ class SpaceManager(SharedSpaceOperations):
             is_relative = False
             subref = subspace.own_refs[name]
             if subref.is_defined():
-                break
+                continue    # Overridden in subspace
             elif subref.defined_bases[0] is not space.own_refs[name]:
-                break
+                continue    # Derived from another defined reference
             if isinstance(value, Interface) and value._is_valid():
                 if (refmode == "auto"
                         or refmode == "relative"):
